@@ -276,6 +276,100 @@ theorem xhistory_refines (m : Matrix α) (h : m.Inv) (xs : List (XOp α)) :
     rw [← h2, ← h3]
     exact ⟨i1, i2, by rw [i3]⟩
 
+/-! ### round trips -/
+
+/-- the abstraction is injective on matrices satisfying the invariant: equal lists of rows mean
+    the very same matrix (size fields and storage) -/
+theorem abs_injective (a b : Matrix α) (ha : a.Inv) (hb : b.Inv) (h : abs a = abs b) : a = b :=
+  eq_of_toRows_eq a b ha hb h
+
+/-- **Operations that undo each other give back the very same matrix** (size fields and storage,
+    not only the same elements): double in-place transposition, double allocating transposition,
+    retain-all, the identity maps, insert-then-remove of a row / column at any valid position, and
+    removing a row then re-inserting its values through an iterator. -/
+theorem round_trips (m : Matrix α) (h : m.Inv) (p : Nat) (v : α) :
+    m.run [.transposeMut, .transposeMut] = m ∧
+    m.run [.transpose, .transpose] = m ∧
+    m.run [.retainMut .all .all] = m ∧ m.run [.retain .all (.not .none)] = m ∧
+    m.run [.mapMut id] = m ∧ m.run [.mapMutWithIndex fun x _ _ => x] = m ∧
+    (p ≤ m.rows → m.run [.insertRow p v, .removeRow p] = m) ∧
+    (p ≤ m.columns → m.run [.insertColumn p v, .removeColumn p] = m) ∧
+    (1 < m.rows → ∀ (hp : p < (abs m).length),
+      m.run [.removeRow p, .insertRowWith p ((abs m)[p])] = m) := by
+  have hn : Rows.nrows (abs m) = m.rows := length_toRows m
+  have hc : Rows.ncols (abs m) = m.columns := ncols_toRows m h
+  have hrect : Rect m.columns (abs m) := rect_toRows m h
+  -- a history whose list-of-rows effect is the identity gives back `m`
+  have key : ∀ ops : List (Op α), Rows.run (abs m) ops = abs m → m.run ops = m := by
+    intro ops hr
+    obtain ⟨i1, i2, _⟩ := history_refines m h ops
+    exact abs_injective _ _ i1 h (by rw [i2, hr])
+  refine ⟨key _ ?_, key _ ?_, key _ ?_, key _ ?_, key _ ?_, key _ ?_, fun hp => key _ ?_,
+    fun hp => key _ ?_, fun h1 hp => key _ ?_⟩
+  · simp only [Rows.run, Rows.next, Rows.pre, Rows.apply, if_true]
+    exact transpose_transpose_toRows m h
+  · simp only [Rows.run, Rows.next, Rows.pre, Rows.apply, if_true]
+    exact transpose_transpose_toRows m h
+  · have e : Rows.apply (abs m) (.retainMut .all .all) = abs m := by
+      simp only [Rows.apply]
+      rw [show Slice.accepts Slice.all = fun _ => true from rfl, filterIdx_true]
+      rw [List.map_congr_left (g := id) (fun x _ => filterIdx_true x)]
+      simp
+    simp only [Rows.run, Rows.next, e, ite_self]
+  · have e : Rows.apply (abs m) (.retain .all (.not .none)) = abs m := by
+      simp only [Rows.apply]
+      rw [show Slice.accepts Slice.all = fun _ => true from rfl,
+        show Slice.accepts (Slice.not Slice.none) = fun _ => true from rfl, filterIdx_true]
+      rw [List.map_congr_left (g := id) (fun x _ => filterIdx_true x)]
+      simp
+    simp only [Rows.run, Rows.next, e, ite_self]
+  · simp [Rows.run, Rows.next, Rows.pre, Rows.apply]
+  · have e : Rows.apply (abs m) (.mapMutWithIndex fun x _ _ => x) = abs m := by
+      simp only [Rows.apply]
+      apply List.ext_getElem?
+      intro i
+      simp only [List.getElem?_mapIdx]
+      cases (abs m)[i]? with
+      | none => rfl
+      | some r => simp [mapIdx_id']
+    simp only [Rows.run, Rows.next, e, ite_self]
+  · have h1 : Rows.pre (abs m) (.insertRow p v) = true := by simp [Rows.pre, hn, hp]
+    have hlen : (List.insertIdx (abs m) p (List.replicate (Rows.ncols (abs m)) v)).length = m.rows + 1 := by
+      rw [List.length_insertIdx_of_le_length (by rw [← hn] at hp; exact hp)]; simp [← hn]
+    have h2 : Rows.pre (Rows.apply (abs m) (.insertRow p v)) (.removeRow p) = true := by
+      simp only [Rows.pre, Rows.apply, Rows.nrows, hlen, Bool.and_eq_true, decide_eq_true_eq]
+      have := h.2.1; omega
+    simp only [Rows.run, Rows.next, h1, h2, if_true]
+    simp only [Rows.apply]
+    exact List.eraseIdx_insertIdx_self _
+  · have h1 : Rows.pre (abs m) (.insertColumn p v) = true := by simp [Rows.pre, hc, hp]
+    have hnc : Rows.ncols (Rows.apply (abs m) (.insertColumn p v)) = m.columns + 1 := by
+      simp only [Rows.apply]
+      exact ncols_of_rect (rect_map_insertIdx _ hrect p hp v) (by simp only [List.length_map]; rw [length_toRows]; exact h.2.1)
+    have h2 : Rows.pre (Rows.apply (abs m) (.insertColumn p v)) (.removeColumn p) = true := by
+      simp only [Rows.pre, hnc, Bool.and_eq_true, decide_eq_true_eq]
+      have := h.2.2; omega
+    simp only [Rows.run, Rows.next, h1, h2, if_true]
+    simp only [Rows.apply, List.map_map]
+    rw [List.map_congr_left (g := id)]
+    · simp
+    · intro r _
+      exact List.eraseIdx_insertIdx_self _
+  · have hp' : p < m.rows := by rw [← hn]; exact hp
+    have h1' : Rows.pre (abs m) (.removeRow p) = true := by simp [Rows.pre, hn, h1, hp']
+    have hlen : ((abs m).eraseIdx p).length = m.rows - 1 := by
+      rw [List.length_eraseIdx_of_lt hp]; simp [← hn]
+    have hrl : ((abs m)[p]).length = m.columns := hrect _ (List.getElem_mem hp)
+    have hnc : Rows.ncols ((abs m).eraseIdx p) = m.columns :=
+      ncols_of_rect (rect_eraseIdx _ hrect p) (by rw [hlen]; omega)
+    have h2 : Rows.pre (Rows.apply (abs m) (.removeRow p)) (.insertRowWith p ((abs m)[p])) = true := by
+      simp only [Rows.pre, Rows.apply, Rows.nrows, hlen, hnc, hrl, Bool.and_eq_true, decide_eq_true_eq]
+      omega
+    simp only [Rows.run, Rows.next, h1', h2, if_true]
+    simp only [Rows.apply, hnc]
+    rw [List.take_of_length_le (by rw [hrl]; exact Nat.le_refl _)]
+    exact insertIdx_eraseIdx_self _ p hp
+
 /-! ### constructors establish the invariant -/
 
 /-- `Matrix::from(Vec<Vec<T>>)` accepts exactly the rectangular, at least 1×1 lists of rows … -/
@@ -370,6 +464,20 @@ theorem constructed_history_refines (c : Ctor α) (m : Matrix α) (h : c.build =
     rw [← habs]
     exact ⟨(history_refines m hinv ops).1, (history_refines m hinv ops).2.1⟩
 
+/-- The same for the extended alphabet: from any constructor, through any finite history that
+    may contain user code panicking at any call. -/
+theorem constructed_xhistory_refines (c : Ctor α) (m : Matrix α) (h : c.build = .ok m)
+    (xs : List (XOp α)) :
+    (m.xrun xs).Inv ∧ abs (m.xrun xs) = Rows.xrun (Rows.ctorRows c) xs := by
+  cases hp : Rows.ctorPre c with
+  | false => rw [(ctor_spec c).2 hp] at h; cases h
+  | true =>
+    obtain ⟨m', hb, hinv, habs⟩ := (ctor_spec c).1 hp
+    rw [hb] at h
+    cases h
+    rw [← habs]
+    exact ⟨(xhistory_refines m hinv xs).1, (xhistory_refines m hinv xs).2.1⟩
+
 /-! ### read-only scalar accessors -/
 
 /-- `scalar()` returns the only element of a 1×1 list of rows and panics otherwise. -/
@@ -411,6 +519,108 @@ theorem clone_refines (m : Matrix α) (h : m.Inv) : m.clone = .ok m :=
 /-- the totalisation trap made explicit: on a storage that lost the invariant `==` would call
     different matrices equal -/
 example : (⟨[1, 2], 1, 2⟩ : Matrix Nat).eqP ⟨[1, 2, 3, 4], 1, 2⟩ = true := by decide
+
+/-! ### the slice algebra is its set semantics -/
+
+/-- **`Slice::accepts` is membership in the denoted set**, for every slice expression (any
+    nesting of `not` / `and` / `or`) and every index: `All` = everything, `None` = nothing,
+    `Single(i)` = `{i}`, `Range(a..b)` = `{k | a ≤ k < b}` (empty for reversed and empty ranges),
+    `Not` = complement, `And` = intersection, `Or` = union. -/
+theorem accepts_iff_mem (s : Slice) (k : Nat) : s.accepts k = true ↔ s.Mem k :=
+  Matrix.accepts_iff_mem s k
+
+/-- `Slice2D::accepts` is membership in the product of the two sets. -/
+theorem accepts2D_iff_mem (rows columns : Slice) (r c : Nat) :
+    Slice.accepts2D rows columns r c = true ↔ rows.Mem r ∧ columns.Mem c := by
+  simp [Slice.accepts2D, Matrix.accepts_iff_mem]
+
+/-- The executable set semantics the driver compares with (`Slice.members`, computed by list
+    complement / intersection / union without calling `accepts`) lists exactly the accepted
+    indexes below `n`. -/
+theorem members_iff_accepts (n : Nat) (s : Slice) (k : Nat) :
+    k ∈ s.members n ↔ k < n ∧ s.accepts k = true :=
+  Matrix.mem_members n s k
+
+/-- a reversed or empty range accepts nothing, and its complement everything -/
+theorem reversed_range_empty (a b : Nat) (h : b ≤ a) (k : Nat) :
+    (Slice.range a b).accepts k = false ∧ (Slice.not (Slice.range a b)).accepts k = true := by
+  have : (Slice.range a b).accepts k = false := by
+    simp only [Slice.accepts, Bool.and_eq_false_iff, decide_eq_false_iff_not]; omega
+  refine ⟨this, ?_⟩
+  show (!(Slice.range a b).accepts k) = true
+  rw [this]; rfl
+
+/-- two slice expressions denote the same set -/
+def SliceEquiv (a b : Slice) : Prop := ∀ k, a.accepts k = b.accepts k
+
+/-- The boolean algebra laws hold for slice expressions (double negation, De Morgan,
+    commutativity, units and zeros), and the intersection of two ranges is the range of the
+    larger start and the smaller end — also for reversed, empty and overlapping ranges. -/
+theorem slice_algebra (a b : Slice) (s t u v : Nat) :
+    SliceEquiv (.not (.not a)) a ∧
+    SliceEquiv (.not (.and a b)) (.or (.not a) (.not b)) ∧
+    SliceEquiv (.not (.or a b)) (.and (.not a) (.not b)) ∧
+    SliceEquiv (.and a b) (.and b a) ∧ SliceEquiv (.or a b) (.or b a) ∧
+    SliceEquiv (.and a .all) a ∧ SliceEquiv (.or a .none) a ∧
+    SliceEquiv (.and a .none) .none ∧ SliceEquiv (.or a .all) .all ∧
+    SliceEquiv (.and a (.not a)) .none ∧ SliceEquiv (.or a (.not a)) .all ∧
+    SliceEquiv (.and (.range s t) (.range u v)) (.range (max s u) (min t v)) := by
+  refine ⟨?_, ?_, ?_, ?_, ?_, ?_, ?_, ?_, ?_, ?_, ?_, ?_⟩ <;> intro k <;>
+    simp only [Slice.accepts]
+  · simp
+  · simp [Bool.not_and]
+  · simp [Bool.not_or]
+  · exact Bool.and_comm _ _
+  · exact Bool.or_comm _ _
+  · simp
+  · simp
+  · simp
+  · simp
+  · simp
+  · simp
+  · rw [Bool.eq_iff_iff]
+    simp only [Bool.and_eq_true, decide_eq_true_eq]
+    omega
+
+/-- **Only the denoted sets matter for a retention**: slice expressions that accept the same
+    indexes give the same `retain_mut` / `retain` result (state and panic), whatever their shape. -/
+theorem retain_congr (m : Matrix α) (a a' b b' : Slice) (ha : SliceEquiv a a') (hb : SliceEquiv b b') :
+    m.exec (.retainMut a b) = m.exec (.retainMut a' b') ∧
+    m.exec (.retain a b) = m.exec (.retain a' b') := by
+  have ea : a.accepts = a'.accepts := funext ha
+  have eb : b.accepts = b'.accepts := funext hb
+  have e2 : Slice.accepts2D a b = Slice.accepts2D a' b' := by
+    funext r c; simp only [Slice.accepts2D, ea, eb]
+  have ec : ∀ n, countAccepted a n = countAccepted a' n := by
+    intro n; simp only [countAccepted, ea]
+  have ed : ∀ n, countAccepted b n = countAccepted b' n := by
+    intro n; simp only [countAccepted, eb]
+  have hmut : ∀ x : Matrix α, x.retainMut a b = x.retainMut a' b' := by
+    intro x; simp only [Matrix.retainMut, ec, ed, e2]
+  refine ⟨hmut m, ?_⟩
+  simp only [Matrix.exec, Matrix.retain]
+  cases m.clone with
+  | panic k => rfl
+  | ok c => simp only [hmut c]
+
+/-! ### a supply of values shared by a sequence of insertions -/
+
+/-- **One iterator lent (`by_ref`) to any sequence of `insert_row_with` / `insert_column_with`
+    calls**: every successful insertion takes its values from the front of what is left, exactly as
+    many as it uses; a call with too few values left or an invalid position panics without
+    touching the matrix; the matrix left behind, the panic flags and what the iterator yields
+    afterwards are those of the list-of-rows model, and the invariant holds throughout. -/
+theorem shared_supply_refines (m : Matrix α) (h : m.Inv) (steps : List (Bool × Nat))
+    (values : List α) :
+    (m.sharedInserts steps values).1.Inv ∧
+    abs (m.sharedInserts steps values).1 = (Rows.sharedInserts (abs m) steps values).1 ∧
+    (m.sharedInserts steps values).2 = (Rows.sharedInserts (abs m) steps values).2 :=
+  sharedInserts_spec steps m h values
+
+/-- row-then-column from one supply of six values on a 2×2 matrix: the row takes two, the column
+    three, one is left -/
+example : (⟨[1, 2, 3, 4], 2, 2⟩ : Matrix Nat).sharedInserts [(true, 1), (false, 0)] [5, 6, 7, 8, 9, 10] =
+    (⟨[7, 1, 2, 8, 5, 6, 9, 3, 4], 3, 3⟩, [false, false], [10]) := by decide
 
 /-! ### the list-of-rows operations are the obvious ones -/
 
